@@ -103,11 +103,18 @@ def check_values(rnd, before, after, n_env=8):
                 # rounded a float) does the tolerant comparison decide - tolerance alone mistakes ill-conditioned rearrangements
                 # (x / 2^40, eps - 1 = -1) for changes of the solution set
                 hb = P.equation_holds(before, env, True)
+            except (P.Undefined, P.Irrational, OverflowError):
+                continue
+            try:
                 ha = P.equation_holds(after, env, True)
                 if hb != ha and not exact:
                     hb = P.equation_holds(before, env, False)
                     ha = P.equation_holds(after, env, False)
-            except (P.Undefined, P.Irrational, OverflowError):
+            except P.Undefined:
+                # both sides of the original are defined here, a side of the result is not: the rewrite divided by zero
+                return ("solution-set", dict(env={chr(k): str(v) for k, v in env.items()}, holds_before=hb,
+                                             holds_after="undefined (the rewritten equation has an undefined side where the original is defined)"))
+            except (P.Irrational, OverflowError):
                 continue
             checked += 1
             if hb != ha:
@@ -118,8 +125,13 @@ def check_values(rnd, before, after, n_env=8):
         st = [F(0)]
         try:
             a = P.eval_exact(before, env, st)
-            b = P.eval_exact(after, env, st)
         except (P.Undefined, P.Irrational, OverflowError):
+            continue
+        try:
+            b = P.eval_exact(after, env, st)
+        except P.Undefined:
+            return ("value", dict(env={chr(k): str(v) for k, v in env.items()}, before=str(a), after="undefined where the original is defined"))
+        except (P.Irrational, OverflowError):
             continue
         ok = (a == b) if exact else P.values_agree(a, b, st[0])
         if not ok:
